@@ -1,21 +1,23 @@
-SPECIFICATION GSpec
+SPECIFICATION Spec
 CONSTANT Prim <- MCPrim
 CONSTANT SubsOf <- MCSubs
 CONSTANT AliasSeq <- MCAlias
 CONSTANT Created <- MCCreated
 CONSTANT IsPublic <- MCIsPublic
-CONSTANT MaxDepth = 6
-CONSTANT Fixed = TRUE
 CONSTANT Squeeze <- MCSqueeze
 CONSTANT HexLike <- MCHexLike
 CONSTANT Msgs <- MCMsgs
-CONSTANT FallbackAll = FALSE
+CONSTANT MaxDepth = 6
+CONSTANT Fixed = TRUE
+CONSTANT FallbackAll = TRUE
 CONSTANT ReloadSubs = TRUE
 CONSTANT PreferPrivate = TRUE
 CONSTRAINT DepthBound
-VIEW ImplView
-INVARIANT Emit
 INVARIANT Consistent
+INVARIANT NoDangling
+INVARIANT Complete
+INVARIANT KeysOK
 INVARIANT QueryOK
 INVARIANT MsgOK
+INVARIANT LoadHoldsAll
 CHECK_DEADLOCK FALSE
